@@ -1,4 +1,7 @@
 import HexVerif.Lemmas.XcmpAmImage
+import HexVerif.Lemmas.XcmpIAm
+import HexVerif.Lemmas.XcmpStage3
+import HexVerif.Lemmas.XcmpWitness
 import HexVerif.Xcmp.Compile
 import HexVerif.X.Sem
 /-!
@@ -20,8 +23,20 @@ import HexVerif.X.Sem
       X.Sem  --(stages 2,3,4)-->  Am on the lowered directives  --(peephole)-->  Am on the final
       directives  --(stage 1: `Am_refines_Isa`)-->  Isa on the bytes.
 
-  Discharged here: stage (1), for EVERY directive list the assembler accepts (so in particular
-  for every output of the compiler), with no restriction on the program.
+  Discharged here:
+  * stage (1) `Am_refines_Isa`, for EVERY directive list the assembler accepts (so in particular
+    for every output of the compiler), with no restriction on the program; and its indexed form
+    `IAm_refines_Isa` (program counter = directive index, labels by name), under the decidable side
+    condition `Separated ds` (no fall-through into a DATA word);
+  * stage (2) `C01_stage2_partial`: every call-free expression (`pureE`, decidable);
+  * stage (3) `C01_stage3_partial`: every statement without user calls (`okS`, decidable): skip,
+    stop, return, assignment to variables, if, while, sequences, the system calls 0/1/2 with
+    call-free actuals.
+  Stages (2) and (3) are Hoare triples over the LOWERED directive list, relative to a procedure
+  context `PCtx` whose well-formedness (`PCtx.WF`/`PCtx.WFS`: label names unique, where each
+  variable in scope lives, the frame lies inside memory and outside the code) the whole-program
+  theorem has to establish from `Xcmp.compile P = .ok img`; that instantiation, the peephole pass
+  and stage (4) (user calls) are open.
 -/
 namespace Hex.C01
 open Hex Hex.Isa
@@ -94,5 +109,74 @@ example : Asm.ParsedOk demo := by simp [demo, Asm.ParsedOk, Asm.InInt32]
 example : demoImg.bytes.length ≤ 4 * memWords := by decide +kernel
 example : exitCode? (Am.run (Am.ofImage demo demoImg) 10 (Am.boot demoImg) (IOSt.init [])) = some 7 := by
   decide +kernel
+
+/-! ### Stage (1b): the indexed machine -/
+
+/-- **`IAm_refines_Isa`.**  For an assembled directive list without fall-through into data: if the
+    indexed machine (pc = directive index, labels resolved by name), started at directive 0 with the
+    image in memory, reaches the exit system call with code `code`, then the ISA on the image bytes
+    exits with the same code and the same I/O. -/
+theorem IAm_refines_Isa (ds : List Asm.Dir) (img : Asm.Image) (g : IAm.Good ds img) (io0 : IOSt)
+    (c : IAm.Cfg) (io : IOSt) (code : Word)
+    (hsteps : IAm.Steps (IAm.envOf ds img) (IAm.bootCfg img) io0 c io)
+    (hexit : IAm.Exit (IAm.envOf ds img) c io code) :
+    ∃ m j s', Isa.run m (Am.boot img) io0 = .exited code j s' io :=
+  IAm.IAm_refines_Isa g io0 c io code hsteps hexit
+
+/-! ### Stage (2): expressions without calls -/
+
+/-- **`C01_stage2_partial`.**  Restriction: `pureE e` (literals, names, `- ~ + - = ~= < <= > >= and
+    or`; no subscripts, strings, calls).  If the reference semantics evaluates `e` to the integer
+    `v`, the code `ExprCodeGen` emits for `OptimiseExpr (ConstProp e)` satisfies the triple
+    `ExecA`: located anywhere in the lowered program, started by `IAm` in any machine state that
+    represents the source state (`Rep`), with its frame need inside the frame, it runs to its end
+    with `v` in areg, the memory still represents the source state, and only frame slots
+    `[offset, size')` of the current frame were written. -/
+theorem C01_stage2_partial (K : C01s.PCtx) (wf : K.WF) (fuel : Nat) (e : X.Expr) (σ : X.St) (v : Word) (σ' : X.St)
+    (hr : C01s.pureE e = true) (hev : X.eval fuel K.xc e σ = .ok (.int v) σ') :
+    C01s.ExecA K (Xcmp.optExpr (C01s.annotate K.ρ e)) v σ :=
+  C01s.expr_pure_correct K wf fuel e σ v σ' hr hev
+
+/-! ### Stage (3): statements without user calls -/
+
+/-- **`C01_stage3_partial`.**  Restriction: `okS s` (skip, stop, return e, v := e, if, while,
+    sequences, the system calls `0(e)`, `1(e, s)`, `2(s)`; all expressions call-free).  Whatever
+    `X.exec` gives for `s` - normal completion, a returned value, program exit with a code, with
+    the I/O it performed - the code `StmtCodeGen` emits does (`ExecS`/`Out`): it reaches its end in
+    a state representing the result state, or the procedure's exit label with the value in areg, or
+    the exit system call with that code; the I/O log is that of the reference semantics. -/
+theorem C01_stage3_partial (K : C01s.PCtx) (exitJ : Nat) (wf : K.WFS exitJ) (fuel : Nat) (s : X.Stmt) (σ : X.St)
+    (hr : C01s.okS s = true) :
+    C01s.ExecS K exitJ (Xcmp.optStmt (C01s.annotS K.ρ s)) σ (X.exec fuel K.xc s σ) :=
+  (C01s.stmt_correct K exitJ wf fuel).1 s σ hr
+
+/-! Non-vacuity of the restrictions: a non-trivial expression and a looping, printing, exiting
+    statement are inside the fragments. -/
+
+example : C01s.pureE (.bin .and (.bin .le (.name "i") (.num 10)) (.un .not (.bin .eq (.bin .plus (.name "g") (.num 100000)) (.un .neg (.name "k"))))) = true := by
+  decide
+
+example : C01s.okS (.seq [.assign "i" (.num 0),
+    .while (.bin .ls (.name "i") (.num 3)) (.seq [.syscall 1 [.bin .plus (.num 97) (.name "i"), .num 0],
+      .assign "i" (.bin .plus (.name "i") (.num 1))]),
+    .ite (.bin .eq (.name "i") (.num 3)) (.syscall 0 [.name "i"]) .skip, .stop]) = true := by
+  decide
+
+/-! Non-vacuity of the hypotheses of stages (2) and (3): `Lemmas/XcmpWitness.lean` builds a concrete
+    procedure context (`g := g + 1` on a global variable, with its symbol table, layout, stack
+    pointer and variable locations), proves `PCtx.WFS` for it, a source state and a memory with
+    `Rep`, and the premises of the triple (`genStmt = ok`, code located in the program).  The
+    theorem then yields the run below. -/
+
+example : C01s.Witness.K.WFS 4 := C01s.Witness.wf
+example : C01s.Rep C01s.Witness.K C01s.Witness.σ C01s.Witness.mem := C01s.Witness.rep
+example : ∃ a' b' mem',
+    IAm.Steps C01s.Witness.K.env (C01s.cfg 0 0 0 C01s.Witness.mem) C01s.Witness.σ.io (C01s.cfg 4 a' b' mem') C01s.Witness.σ'.io ∧
+    C01s.Rep C01s.Witness.K C01s.Witness.σ' mem' := by
+  have h := C01_stage3_partial C01s.Witness.K 4 C01s.Witness.wf 10 C01s.Witness.stmt C01s.Witness.σ C01s.Witness.stmt_ok
+    {} C01s.Witness.code {} 0 0 0 C01s.Witness.mem C01s.Witness.gen_ok C01s.Witness.code_at C01s.Witness.rep
+    (Nat.zero_le _) (Nat.le_refl _) (fun e he => by simp at he)
+  rw [C01s.Witness.exec_ok] at h
+  exact h
 
 end Hex.C01
